@@ -714,7 +714,7 @@ def rule_tcol(repo, tier):
     translation meant for 3x3 input."""
     res = RuleResult('C11.TCOL', 'mat2SE3 / mat2Sim3 decide "no translation column" by the number of columns (shape[-1] == 3 or shape[-2:] == (3, 3))', floor=2)
     for q in ('mat2SE3', 'mat2Sim3'):
-        f = repo.func(CV, q)
+        f = __import__('sa.core', fromlist=['x']).ifstmt_view(repo.func(CV, q))
         p0 = f.pos_params[0]
         shapes = {p0 + '.shape'}
         for a in ast.walk(f.node):
